@@ -135,19 +135,31 @@ def runSyncDestRequest (toks : List String) : String :=
     | .err => "err"
     | .escape => "escape"
 
-/-- `synctrees <source root> <source nodes> <dest root> <dest nodes>`: the objects of `C01_mirror_two_trees` -/
-def runSyncTreesRequest (toks : List String) : String :=
+/-- `synctrees <source root> <source nodes> <dest root> <dest nodes> <filters as ASTs>`: the objects of
+`C01_mirror_two_trees` (no filters) and of `C01_mirror_two_trees_filtered` (filters: the verdict of `apply_filters` on the
+root-relative path, the same on both sides) -/
+def runSyncTreesRequest (wrapPre wrapPost : String) (toks : List String) : String :=
   match P.run (do
       let rs ← P.str; let S ← P.fsNodes
       let rd ← P.str; let D ← P.fsNodes
-      pure (rs, S, rd, D)) toks with
+      let filters ← P.list P.filterAst
+      pure (rs, S, rd, D, filters)) toks with
   | none => "bad-op"
-  | some (rs, S, rd, D) =>
-    let rs := pathComps rs; let rd := pathComps rd
-    let fS := S.nodes.length + 1; let fD := D.nodes.length + 1
-    match syncDest D rd (srcOfFS S rs) (lsOfFS S rs fS) ((listNodes D fD rd).map fun e => (e.1.drop rd.length, e.2)) with
-    | .ok fs' => s!"ok fs=[{fs'.render}]"
-    | .err => "err"
-    | .escape => "escape"
+  | some (rs, S, rd, D, filters) =>
+    match filters.mapM (fun (f : Bool × Re) => (wrapOf wrapPre wrapPost f.2).map (fun w => (f.1, w))) with
+    | none => "bad-wrap"
+    | some wfs =>
+      let rs := pathComps rs; let rd := pathComps rd
+      let fS := S.nodes.length + 1; let fD := D.nodes.length + 1
+      let r :=
+        if wfs.isEmpty then
+          syncDest D rd (srcOfFS S rs) (lsOfFS S rs fS) ((listNodes D fD rd).map fun e => (e.1.drop rd.length, e.2))
+        else
+          let keep : FPath → Bool := fun p => applyFilters wfs (joinSlash p).toArray
+          syncDest D rd (srcOfFS S rs) (lsOfFSF keep S rs fS) ((listNodesF keep rd D fD rd).map fun e => (e.1.drop rd.length, e.2))
+      match r with
+      | .ok fs' => s!"ok fs=[{fs'.render}]"
+      | .err => "err"
+      | .escape => "escape"
 
 end Rj
